@@ -78,7 +78,7 @@ impl TryReadFromBytes for SequenceNumberSet {
     fn try_read_from_bytes(data: &mut &[u8], endianness: &Endianness) -> RtpsMessageResult<Self> {
         let base = SequenceNumber::try_read_from_bytes(data, endianness)?;
         let num_bits = u32::try_read_from_bytes(data, endianness)?;
-        if num_bits > 256 {
+        if num_bits > 256 || base.checked_add(num_bits.saturating_sub(1) as i64).is_none() {
             return Err(RtpsMessageError::InvalidData);
         }
         let number_of_bitmap_elements = num_bits.div_ceil(32) as usize; //In standard referred to as "M"
